@@ -376,6 +376,10 @@ func (s *symb) expr0(v ssa.Value) *Sym {
 					// a by-value struct parameter (spilled to this cell) that was substituted by a loaded struct:
 					// the field of the value is the load of the original's field
 					if val := cellValue(al); val != nil {
+						// … or by a struct value whose fields are known one by one (a bound method's receiver)
+						if sub, ok := s.subst[val]; ok && sub.Op == "struct" && fa.Field < len(sub.Args) && sub.Args[fa.Field] != nil {
+							return sub.Args[fa.Field]
+						}
 						if sub, ok := s.subst[val]; ok && sub.Op == "load" && len(sub.Args) == 1 {
 							return &Sym{Op: "load", Args: []*Sym{{Op: "field", Leaf: fmt.Sprintf("f%d", fa.Field), Args: []*Sym{sub.Args[0]}}}, Val: v}
 						}
@@ -422,6 +426,9 @@ func (s *symb) expr0(v ssa.Value) *Sym {
 	case *ssa.FieldAddr:
 		return &Sym{Op: "field", Leaf: fmt.Sprintf("f%d", x.Field), Args: []*Sym{s.expr(x.X)}, Val: v}
 	case *ssa.Field:
+		if sub, ok := s.subst[x.X]; ok && sub.Op == "struct" && x.Field < len(sub.Args) && sub.Args[x.Field] != nil {
+			return sub.Args[x.Field]
+		}
 		// field of a loaded struct value == load of the field's address
 		if ld, ok := x.X.(*ssa.UnOp); ok && ld.Op == token.MUL {
 			return &Sym{Op: "load", Args: []*Sym{{Op: "field", Leaf: fmt.Sprintf("f%d", x.Field), Args: []*Sym{s.expr(ld.X)}}}, Val: v}
